@@ -266,7 +266,8 @@ Record scheduler (S : Type) := mkSched {
 Arguments s_next_task {S}. Arguments s_next_u64 {S}. Arguments mkSched {S}.
 
 Inductive event :=
-| EvDecision (offered : list nat) (cur : option nat) (yielding : bool) (chosen : option nat)
+| EvDecision (pre : exec) (offered : list nat) (cur : option nat) (yielding : bool) (chosen : option nat)
+    (* `pre` is ghost: the execution state in which the scheduler was consulted; never printed *)
 | EvRandom (v : N)
 | EvOp (t : nat) (tag : N) (vals : list N) (clk : vclock).
 
@@ -310,7 +311,7 @@ Definition schedule (e : exec) (st : SS) : (option step_error * exec * SS * list
         let e := with_yielded e false in
         let offered := offered_of e in
         let (choice, st') := s_next_task sch st offered (sched_id (current e)) yielding in
-        let ev := [EvDecision offered (sched_id (current e)) yielding choice] in
+        let ev := [EvDecision e offered (sched_id (current e)) yielding choice] in
         match choice with
         | None => (None, with_current_next e (current e) SStopped, st', ev)
         | Some t =>
